@@ -7,6 +7,7 @@ mod consts_more;
 mod c03;
 mod c04;
 mod c08;
+mod c09;
 mod c17;
 mod c18;
 mod c18_wdt;
@@ -63,6 +64,7 @@ fn main() {
                 "C03" => c03::run(&mut ctx),
                 "C04" => c04::run(&mut ctx),
                 "C08" => c08::run(&mut ctx),
+                "C09" => c09::run(&mut ctx),
                 "C17" => c17::run(&mut ctx),
                 "C18" => c18::run(&mut ctx),
                 _ => {
